@@ -2,7 +2,7 @@
 from .. import fonts, synthwork
 
 META = dict(
-    technique='history monitor: a long-lived lazy / preloaded face lives through seeded API histories (shape, query, line-break + justify, feature values, labels, fonts, destroys in random order); probe calls and the face self-report are compared textually with a brand-new face; ASan+UBSan build',
+    technique='history monitor + order-swap monitor (two calls differing in one enumerated argument - every feature value, language, direction, size, text - made in both orders on fresh faces must each return the same segment): a long-lived lazy / preloaded face lives through seeded API histories (shape, query, line-break + justify, feature values, labels, fonts, destroys in random order); probe calls and the face self-report are compared textually with a brand-new face; ASan+UBSan build',
     level='exploration: for shipped fonts and synthesised fonts (SET_FEAT, user attributes, pass-skipping bits, justification) every few operations of a history a probe (text, encoding, dir, features, ppm) from a fixed probe set is replayed on the long-lived face '
           'and must dump byte-identically to the reference computed on a fresh face with the same options; single label queries (feature / setting, language, encoding) must answer as they do when they are the first query of a fresh face (fonts with name records under several platform/encoding pairs included); after the history the face must report the same glyph count, features, labels, languages and character support',
     note='same process and build on both sides, so equality is exact; state that only matters across faces is exercised lightly (reference faces are created and destroyed while the long-lived ones exist)',
@@ -16,19 +16,23 @@ def run(chk):
     for fpath, tpath, _ in fonts.shipped():
         parts.append(dict(harness='h_hist', flavour='asan', args=['--font', fpath, '--texts', tpath, '--ops', 40 if quick else 200, '--probes', 10 if quick else 24],
                           cases=12 if quick else 300, nshards=2 if quick else 8, nsamples=1))
+        # order-swap monitor: enumerated single-argument variations (every feature x value, every language, dir, size, text), both orders
+        parts.append(dict(harness='h_hist', flavour='asan', args=['--part', 'swap', '--font', fpath, '--texts', tpath, '--probes', 6, '--lprobes', 0],
+                          cases=24 if quick else 200, nshards=2 if quick else 8, nsamples=0))
     npaths = 0
-    for kind, cnt in (('stateful', 30 if quick else 400), ('just', 16 if quick else 200), ('feat', 16 if quick else 200)):
+    for kind, cnt in (('stateful', 30 if quick else 400), ('just', 16 if quick else 200), ('feat', 24 if quick else 200)):
         lst, paths = synthwork.make_fonts(kind, chk.seed, cnt)
         npaths += len(paths)
         for p in paths:
             parts.append(dict(harness='h_hist', flavour='asan', args=['--font', p, '--ops', 40 if quick else 200, '--probes', 10], cases=12 if quick else 60, nshards=1, nsamples=0))
+            parts.append(dict(harness='h_hist', flavour='asan', args=['--part', 'swap', '--font', p, '--probes', 6, '--lprobes', 0], cases=16 if quick else 200, nshards=1, nsamples=0))
     chk.run_parts(parts, workers=10)
     t = chk.tot
     cov['evaluations'] = int(t.get('probes_compared', 0))
     cov['distinct_nontrivial'] = int(t.get('nontrivial', 0))
     cov['rule'] = ('one case = one history of N operations on a fresh long-lived face (options default or preloadAll chosen per history) with a probe every 5 operations; evaluations = probes compared; '
                    'non-trivial = compared probes of >= 2 characters that returned a segment; distinct by (history seed, position)')
-    for k in ('fonts_not_loaded', 'histories', 'ops', 'op_shape', 'op_justify', 'op_destroy', 'op_query', 'op_featureval', 'op_font', 'reports_compared', 'label_probes_compared', 'rules_fired', 'histories_with_rules'):
+    for k in ('fonts_not_loaded', 'histories', 'ops', 'op_shape', 'op_justify', 'op_destroy', 'op_query', 'op_featureval', 'op_font', 'op_shape_near_miss_of_probe', 'swap_pairs', 'swap_pairs_where_the_variation_matters', 'label_swap_pairs', 'label_swap_pairs_with_different_answers', 'max_swap_variations_of_a_font', 'reports_compared', 'label_probes_compared', 'rules_fired', 'histories_with_rules'):
         cov[k] = int(t.get(k, 0))
     cov['shipped_fonts'] = len(fonts.shipped())
     cov['synth_fonts'] = npaths
